@@ -80,3 +80,101 @@ def assemble(W, layout_wire, links_wired, prefix=""):
         fname = l.get("filename") or f"{l['step']}.{W.pfx(l.get('file_key', l['key']))}.link"
         files[prefix + fname] = scen.dumps(w)
     return files
+
+
+# ---- delegation trees ---------------------------------------------------------------------
+#
+# node = {"layout": doc, "signers": [names], "steps": [ {"name", "threshold", "auth":[names],
+#           "evidence": [ {"key": k, "kind": "link", "doc": d, "signers": [..]} |
+#                         {"key": k, "kind": "layout", "node": child, ("dir": override)} ] } ]}
+
+
+def leaf_link(name, i, cmd=None, byp=None):
+    mats, prods = chain_artifacts(i)
+    return scen.mk_link(name, mats, prods, cmd if cmd is not None else ["cc", f"-o{i}"],
+                        byp if byp is not None else {"stdout": f"out{i}", "stderr": "", "return-value": 0}, None)
+
+
+def make_node(rng, W, depth, owner_signers, functionaries=None, nsteps=None, expires=None, delegate_prob=0.5,
+              names=None, rules=True):
+    """a valid delegation tree of the given depth (depth 0 = plain layout with links)"""
+    functionaries = functionaries or ["ed4", "ed5", "ed6", "edp2", "ec-b"]
+    nsteps = nsteps or rng.choice([1, 2, 3])
+    names = names or rng.sample(STEP_NAMES[:9], nsteps)
+    steps, docs = [], []
+    table = set()
+    for i in range(nsteps):
+        thr = 1
+        ks = rng.sample(functionaries, rng.choice([1, 2]))
+        table |= set(ks)
+        ev = []
+        k = ks[0]
+        if depth > 0 and rng.random() < delegate_prob:
+            child = make_node(rng, W, depth - 1, [k], functionaries, None, None, delegate_prob, None, rules)
+            # the child's summary must look like step i of the parent chain: rename inner artifacts accordingly
+            ev.append({"key": k, "kind": "layout", "node": child})
+        else:
+            ev.append({"key": k, "kind": "link", "doc": leaf_link(names[i], i), "signers": [k]})
+        mr, pr = (rules_for(rng, i, names) if rules and all(e["kind"] == "link" for e in ev) and
+                  (i == 0 or all(e["kind"] == "link" for e in steps[i - 1]["evidence"])) else ([["ALLOW", "*"]], [["ALLOW", "*"]]))
+        steps.append({"name": names[i], "threshold": thr, "auth": ks, "evidence": ev})
+        docs.append(scen.mk_step(names[i], thr, [W.kid(x) for x in ks], ["cc", f"-o{i}"], mr, pr))
+    layout = scen.mk_layout(W, sorted(table), docs, [], expires, "")
+    return {"layout": layout, "signers": list(owner_signers), "steps": steps}
+
+
+def collect_requests(node, reqs):
+    """append (doc, signers, via) for every document of the tree; remember request indices in the tree"""
+    node["req"] = len(reqs)
+    reqs.append((node["layout"], node["signers"], "new"))
+    for st in node["steps"]:
+        for e in st["evidence"]:
+            if e["kind"] == "link":
+                e["req"] = len(reqs)
+                reqs.append((e["doc"], e["signers"], "new"))
+            else:
+                collect_requests(e["node"], reqs)
+
+
+def tree_files(W, node, wires, prefix="", post=None):
+    """files of the link directory below `prefix` for the evidence of `node`.
+    post(e_or_node, wire) -> wire lets the caller tamper with individual documents."""
+    files = {}
+    for st in node["steps"]:
+        for e in st["evidence"]:
+            fkey = e.get("file_key", e["key"])
+            fname = f"{st['name']}.{W.pfx(fkey)}.link"
+            if e.get("absent"):
+                continue
+            if e["kind"] == "link":
+                w = wires[e["req"]]
+                if post:
+                    w = post(e, w)
+                files[prefix + fname] = scen.dumps(w)
+            else:
+                w = wires[e["node"]["req"]]
+                if post:
+                    w = post(e, w)
+                files[prefix + fname] = scen.dumps(w)
+                sub = e.get("dir") or f"{st['name']}.{W.pfx(e['key'])}"
+                files.update(tree_files(W, e["node"], wires, prefix + sub + "/", post))
+    return files
+
+
+def evidence_link(e, step_name):
+    """the link a piece of evidence contributes to its parent (as a dict of link fields)"""
+    if e["kind"] == "link":
+        d = e["doc"]
+        return {"name": d["name"], "materials": d["materials"], "products": d["products"], "command": d["command"],
+                "byproducts": d["byproducts"]}
+    return summary_of(e["node"], step_name)
+
+
+def summary_of(node, name):
+    steps = node["steps"]
+    if not steps:
+        return {"name": name, "materials": {}, "products": {}, "command": [], "byproducts": {}}
+    first = evidence_link(steps[0]["evidence"][0], steps[0]["name"])
+    last = evidence_link(steps[-1]["evidence"][0], steps[-1]["name"])
+    return {"name": name, "materials": first["materials"], "products": last["products"], "command": last["command"],
+            "byproducts": last["byproducts"]}
